@@ -4,6 +4,7 @@ package node
 
 import (
 	"github.com/youzan/ZanRedisDB/raft"
+	"github.com/youzan/ZanRedisDB/raft/raftpb"
 	"github.com/youzan/ZanRedisDB/transport/rafthttp"
 )
 
@@ -18,3 +19,9 @@ func VerifQueues(nd *KVNode) (int, int) {
 
 // VerifRaftView: the raft state read in place (only meaningful while the raft loop is idle).
 func VerifRaftView(nd *KVNode) raft.VerifView { return raft.VerifNodeView(nd.rn.node) }
+
+// VerifReconcileHardState is the reconciliation replayWAL applies to the stored hard state before it is
+// handed to raft (raftmc restarts a replica from its storage object and has to do what replayWAL does).
+func VerifReconcileHardState(st *raftpb.HardState, snapshot *raftpb.Snapshot) {
+	reconcileHardStateWithSnapshot(st, snapshot)
+}
